@@ -202,9 +202,16 @@ def run(ctx):
                 wn = C.stmt_node(ctx, fn, wc)
                 if g.dominates(wn, rn):
                     complete, closed, enc_ok = wc, wc, True
+            obj_call = None
             if w.prim in ("builtins.open", "io.open") and wc.args and flow.term(wc.args[0], fn) == src_t:
+                obj_call = wc
+            elif w.prim == "os.open" and wc.args and flow.term(wc.args[0], fn) == src_t:
+                par = ctx.prog.parent.get(wc)       # os.fdopen(os.open(tmp, flags), "wb")
+                if isinstance(par, ast.Call) and C.is_ext_call(ctx, par, fn, ("os.fdopen",)) and par.args and par.args[0] is wc:
+                    obj_call = par
+            if obj_call is not None:
                 # find the file object and its write
-                parent = ctx.prog.parent.get(wc)
+                parent = ctx.prog.parent.get(obj_call)
                 fd = None
                 withstmt = None
                 if isinstance(parent, ast.withitem) and isinstance(parent.optional_vars, ast.Name):
